@@ -30,7 +30,7 @@ ASSUMPTIONS = [
     'reparse-loses-no-rule counts rules whose own serialisation is non-empty',
 ]
 MIN_EVENTS = {'quick': {'oracle.structure': 25000, 'oracle.accept-reject': 5000, 'oracle.reparse': 20000, 'rejections': 6000, 'oracle.vanished-objects': 12000},
-              'thorough': {'oracle.structure': 700000, 'oracle.accept-reject': 150000, 'oracle.reparse': 500000, 'rejections': 150000, 'oracle.vanished-objects': 300000}}
+              'thorough': {'oracle.structure': 700000, 'oracle.accept-reject': 150000, 'oracle.reparse': 500000, 'rejections': 150000, 'oracle.vanished-objects': 40000}}
 
 
 def templates():
